@@ -235,6 +235,19 @@ def check_decode_value_spec(rep, case, rng):
 def mutate_all(obj, depth=0):
     if depth > 8:
         return
+    if isinstance(obj, pbase.SimpleAsn1Type):
+        # scalars are immutable: an augmented assignment on a name bound to one rebinds the name and leaves the object - which
+        # may be the schema's own DEFAULT value, or shared with another result - as it was
+        import operator
+        for op, arg in ((operator.iadd, 1), (operator.isub, 1), (operator.imul, 2), (operator.ior, 1), (operator.iand, 1),
+                        (operator.ixor, 1), (operator.ilshift, 1), (operator.irshift, 1), (operator.ifloordiv, 2), (operator.imod, 2),
+                        (operator.ipow, 2), (operator.iadd, b'x'), (operator.imul, 2), (operator.iadd, (1,)), (operator.iadd, 'x')):
+            x = obj
+            try:
+                x = op(x, arg)
+            except Exception:  # noqa
+                pass
+        return
     if isinstance(obj, univ.Choice):
         c = obj.getComponent()
         mutate_all(c, depth + 1)
@@ -677,6 +690,26 @@ def cross_call_forms(rep):
                     if got != ['abcd'] * 3:
                         rep.fail('history-dependent:identifier-forms-one-call', 'SEQUENCE OF with elements %s decodes to %s, every element denotes abcd' % (
                             body.hex(), got), {'kind': 'one-call-forms', 'class': cls, 'number': num, 'bytes': body.hex()})
+            # two strings under the SAME explicit tag in one message, one in primitive and one in segmented form, either order,
+            # with a guiding type and without
+            ex_str = univ.OctetString().subtype(explicitTag=tag.Tag(CLS[cls], tag.tagFormatSimple, num))
+            pair = univ.Sequence(componentType=namedtype.NamedTypes(namedtype.NamedType('a', ex_str), namedtype.NamedType('b', ex_str)))
+            w_prim = wire.emit_ident(cls, True, num) + b'\x04\x04\x02ab'
+            w_cons = wire.emit_ident(cls, True, num) + b'\x0a\x24\x08\x04\x02cd\x04\x02ef'
+            for first_prim in (True, False):
+                body = (w_prim + w_cons) if first_prim else (w_cons + w_prim)
+                want = (b'ab', b'cdef') if first_prim else (b'cdef', b'ab')
+                for spec in (pair, None):
+                    rep.count('one-call-forms')
+                    try:
+                        v, rest = codec.DEC['ber'].decode(b'\x30' + bytes([len(body)]) + body, asn1Spec=spec)
+                        got = (bytes(v[0]), bytes(v[1]), bytes(rest))
+                    except Exception as e:  # noqa
+                        got = 'ERR ' + type(e).__name__
+                    if got != want + (b'',):
+                        rep.fail('history-dependent:identifier-forms-one-call', 'two strings under one explicit tag, %s first (%s guiding type): %s' % (
+                            'primitive' if first_prim else 'segmented', 'with' if spec is not None else 'without', got),
+                                 {'kind': 'one-call-forms', 'class': cls, 'number': num, 'bytes': body.hex()})
             # an explicit wrapper (constructed) and an implicit primitive under the same class and number in one record
             wrapped = univ.Integer().subtype(explicitTag=tag.Tag(CLS[cls], tag.tagFormatSimple, num))
             for first_wrapped in (True, False):
